@@ -23,6 +23,7 @@ import (
 	"math"
 	"os"
 	"reflect"
+	"regexp"
 	"strconv"
 	"strings"
 
@@ -46,7 +47,7 @@ func b2s(b bool) string {
 func srDump(sr *proj.SR) string {
 	v := reflect.ValueOf(sr).Elem()
 	var b strings.Builder
-	name := strings.ToLower(sr.Name)
+	name := strings.ReplaceAll(strings.ToLower(sr.Name), " ", "~")
 	if name == "" {
 		name = "-"
 	}
@@ -128,7 +129,12 @@ func impl() {
 		var res string
 		pan := vproto.Safe(func() {
 			p := vproto.NewParser(line)
-			if p.Next() != "rt" {
+			kind := p.Next()
+			if kind == "cl" {
+				res = implClosures(p)
+				return
+			}
+			if kind != "rt" {
 				res = "badline"
 				return
 			}
@@ -202,6 +208,80 @@ func impl() {
 		}
 		fmt.Fprintf(out, "%s => %s\n", line, res)
 	})
+}
+
+// implClosures: `cl <class> <B def> <n> (<lon> <lat>)*n` (radians, in B's own frame).
+// fwd, inv := B.Transformers() is obtained ONCE (public API) and the SAME two closures are pushed
+// through: the n in-region positions (project, un-project, project again), then calls that the
+// projection may legitimately reject (poles, NaN, a quarter turn off the central meridian), then the n
+// in-region positions again.  Every in-region answer is also computed by closures obtained fresh from
+// a freshly parsed SR (control): H = 1 when a reused answer differs (bit patterns / error status).
+//
+//	=> B <srdump> J <rejected invalid calls> H <h> R (<q> <e> <p2> <e> <q2> <e>)*2n   (before*n, after*n)
+func implClosures(p *vproto.Parser) string {
+	p.Next() // class
+	b := strings.ReplaceAll(p.Next(), "~", " ")
+	n := p.Int()
+	B, err := proj.Parse(b)
+	if err != nil {
+		return "parseerr B " + errTok(err)
+	}
+	dump := srDump(B)
+	U, _ := proj.Parse(b)
+	fwd, inv, err := U.Transformers()
+	if err != nil {
+		return "B " + dump + " newerr " + errTok(err)
+	}
+	pts := make([][2]float64, n)
+	for i := range pts {
+		pts[i] = [2]float64{p.F(), p.F()}
+	}
+	same := func(x1, y1 float64, e1 error, x2, y2 float64, e2 error) bool {
+		return math.Float64bits(x1) == math.Float64bits(x2) && math.Float64bits(y1) == math.Float64bits(y2) && (e1 == nil) == (e2 == nil)
+	}
+	hist := false
+	var rs strings.Builder
+	round := func() {
+		for _, pt := range pts {
+			qx, qy, e1 := fwd(pt[0], pt[1])
+			px, py, e2 := inv(qx, qy)
+			rx, ry, e3 := fwd(px, py)
+			F, _ := proj.Parse(b)
+			ff, fi, ferr := F.Transformers()
+			if ferr != nil {
+				hist = true
+			} else {
+				fqx, fqy, f1 := ff(pt[0], pt[1])
+				fpx, fpy, f2 := fi(qx, qy)
+				frx, fry, f3 := ff(px, py)
+				if !same(qx, qy, e1, fqx, fqy, f1) || !same(px, py, e2, fpx, fpy, f2) || !same(rx, ry, e3, frx, fry, f3) {
+					hist = true
+				}
+			}
+			fmt.Fprintf(&rs, " %s %s %s %s %s %s %s %s %s", hexf(qx), hexf(qy), errTok(e1),
+				hexf(px), hexf(py), errTok(e2), hexf(rx), hexf(ry), errTok(e3))
+		}
+	}
+	round()
+	// calls a projection may reject; their answers are not judged, only what they leave behind
+	rejected := 0
+	l0 := 0.0
+	if len(pts) > 0 {
+		l0 = pts[0][0]
+	}
+	nan := math.NaN()
+	for _, c := range [][2]float64{{l0, math.Pi / 2}, {l0, -math.Pi / 2}, {nan, nan}, {l0, 2}, {l0 + math.Pi/2, 0}, {l0 - math.Pi/2, 0}} {
+		if _, _, e := fwd(c[0], c[1]); e != nil {
+			rejected++
+		}
+	}
+	for _, c := range [][2]float64{{nan, nan}, {1e30, 1e30}, {math.Inf(1), 0}} {
+		if _, _, e := inv(c[0], c[1]); e != nil {
+			rejected++
+		}
+	}
+	round()
+	return fmt.Sprintf("B %s J %d H %s R%s", dump, rejected, b2s(hist), rs.String())
 }
 
 // ---------------------------------------------------------------- gen
@@ -585,6 +665,23 @@ func emit(out *bufio.Writer, cls string, a, b crs, ps [][2]float64) {
 	}
 }
 
+// emitClosures writes `cl` lines: positions in radians in B's own frame
+func emitClosures(out *bufio.Writer, name string, b crs, ps [][2]float64, _ int) {
+	for i := 0; i < len(ps); i += 8 {
+		j := i + 8
+		if j > len(ps) {
+			j = len(ps)
+		}
+		fmt.Fprintf(out, "cl %s-closures %s %d", name, strings.ReplaceAll(b.def, " ", "~"), j-i)
+		for _, p := range ps[i:j] {
+			fmt.Fprintf(out, " %s %s", hexf(p[0]*math.Pi/180), hexf(p[1]*math.Pi/180))
+		}
+		fmt.Fprintln(out)
+	}
+}
+
+var wktCM = regexp.MustCompile(`(?i)central_meridian",\s*([-0-9.]+)`)
+
 func class(name string, a, b crs) string {
 	t := name
 	for _, s := range b.tags {
@@ -642,12 +739,34 @@ func gen(seed uint64, tier string) {
 		name := between(f.b, "+proj=", " ")
 		emit(out, class(name, wgs, b), wgs, b, f.ps)
 	}
+	// WKT-defined systems (proj.Parse accepts WKT), incl. the ESRI Mercator_Auxiliary_Sphere text
+	for _, w := range wktCorpus {
+		b := crs{def: w.wkt, tags: []string{"wkt"}}
+		ps := [][2]float64{}
+		// the transverse series is usable within 3.5 degrees of the central meridian only
+		if m := wktCM.FindStringSubmatch(w.wkt); m != nil && strings.Contains(w.wkt, `PROJECTION["Transverse_Mercator"]`) {
+			if cm, err := strconv.ParseFloat(m[1], 64); err == nil && math.Abs(w.ll[0]-cm) > 2 {
+				w.ll[0] = cm + 1.5
+			}
+		}
+		for _, d := range [][2]float64{{0, 0}, {1, 0.5}, {-1, -0.5}, {0.5, -1}, {-0.5, 1}, {0.25, 2}, {-0.75, -2}, {0, 0.001}} {
+			ps = append(ps, [2]float64{w.ll[0] + d[0], w.ll[1] + d[1]})
+		}
+		if strings.Contains(w.wkt, "Mercator_Auxiliary_Sphere") {
+			ps = append(ps, [][2]float64{{-179, 85}, {179, -85}, {0, 45}, {10, 50}, {-95, -40}, {120, 66.5}, {-30, -23.4}, {60, 1}}...)
+		}
+		emit(out, class("wkt", wgs, b), wgs, b, ps)
+		emitClosures(out, "wkt", b, ps, 0)
+	}
 	names := []string{"longlat", "merc", "lcc", "aea", "eqdc", "tmerc", "utm", "krovak"}
 	for _, name := range names {
 		for i := 0; i < nParam; i++ {
 			b, reg := mkProjected(r, name, i)
 			a := mkGeographic(r, i, &b)
 			emit(out, class(name, a, b), a, b, positions(r, reg, a, b, nPos))
+			// the same parameterisation through ONE reused closure pair of B.Transformers():
+			// positions in B's own frame (A := B's frame, so that lon = lon_0 + d)
+			emitClosures(out, name, b, positions(r, reg, b, b, 8), 0)
 		}
 	}
 }
